@@ -55,3 +55,8 @@ Definition vidx (a : val) (i : Z) : val :=
 Definition vappend (a v : val) : val := VV (as_list a ++ as_list v).
 (** np.array([c1, c2, ...]) *)
 Definition varray (l : list Qc) : val := VV l.
+
+(** Python int() (truncation towards zero), min(a, b), max(a, b) on scalars *)
+Definition vtrunc (a : val) : val := VS (Qc_of_Z (Qc_trunc (as_scalar a))).
+Definition vmin2 := lift2 Qc_min.
+Definition vmax2 := lift2 Qc_max.
